@@ -176,6 +176,9 @@ def concrete_case(rec):
         m(torch.zeros((1,) + tuple(shape)))
         got = {k: float(m.get_cost(k)) for k in ('params_bit', 'ops_bit')}
         shown = {k: {a: float(b) for a, b in v.items()} for k, v in shown_counts(m).items()}
+    # the cost is read with and without autograd recording (validation loop vs. training step): the value furthest from the no_grad one is kept too
+    got_g = {k: float(m.get_cost(k)) for k in ('params_bit', 'ops_bit')}
+    got = {k: (got[k], got_g[k]) for k in got}
     summ = m.summary()
     tot, per = exact_costs(spec, m, shape, summ)
     return got, tot, shown, per, summ
@@ -194,7 +197,7 @@ def replay(rec):
     obs = rec['observable']
     info = f'cost={got} exact={tot} shown={shown} expected={ {k: (v["in_alive"], v["out_alive"]) for k, v in per.items()} } summary={summ}'[:900]
     if obs in ('params_bit', 'ops_bit'):
-        return abs(got[obs] - tot[obs]) > 1e-4 * max(1, tot[obs]), info
+        return any(abs(g - tot[obs]) > 1e-4 * max(1, tot[obs]) for g in got[obs]), info
     if obs.startswith('shown_'):
         side = obs.split('_')[1]
         l = rec['layer']
@@ -229,12 +232,14 @@ def run_instance(p):
         with SymMode(), mpslib.saved_thetas(m), (st.written_params(pairs, lambda: _use(m, shape), hist) if hist else swapped_params(pairs)):
             m(torch.zeros((1,) + tuple(shape)))           # eval mode: forks on every arg-max
             costs = {k: st.scalar_of(m.get_cost(k)) for k in ('params_bit', 'ops_bit')}
+            with torch.no_grad():
+                costs_ng = {k: st.scalar_of(m.get_cost(k)) for k in ('params_bit', 'ops_bit')}
             shown = shown_counts(m)
             summ = m.summary()
-        return sy, costs, shown, summ
+        return sy, (costs, costs_ng), shown, summ
     ex = Explorer(timeout_ms=Q)
     n = 0
-    for pc, (sy, costs, shown, summ) in ex.explore(fn):
+    for pc, (sy, (costs, costs_ng), shown, summ) in ex.explore(fn):
         n += 1
         if any(isinstance(v.get('w_precision'), list) and all(b == 0 for b in v['w_precision']) for v in summ.values()):
             # every channel of some layer selected 0 bit: the layer is searched out of existence (MPS has no keep-alive); degenerate, outside the claim
@@ -243,12 +248,15 @@ def run_instance(p):
         tot, per = exact_costs(spec, m, shape, summ)
         checks = []
         for k in ('params_bit', 'ops_bit'):
-            checks.append((k, None, st.e_ne(costs[k], Fraction(tot[k] + (1 if selftest and k == 'params_bit' else 0)))))
+            checks.append((k, None, st.e_ne(costs[k], Fraction(tot[k] + (1 if selftest and k == 'params_bit' else 0))), costs[k]))
+            bad_ng = st.e_ne(costs_ng[k], Fraction(tot[k]))
+            if bad_ng is not False and str(bad_ng) != str(checks[-1][2]):
+                checks.append((k, None, bad_ng, costs_ng[k]))          # the same metric read under torch.no_grad()
         for l, v in shown.items():
-            checks.append(('shown_in', l, st.e_ne(v['in'], per[l]['in_alive'])))
-            checks.append(('shown_out', l, st.e_ne(v['out'], per[l]['out_alive'])))
+            checks.append(('shown_in', l, st.e_ne(v['in'], per[l]['in_alive']), None))
+            checks.append(('shown_out', l, st.e_ne(v['out'], per[l]['out_alive']), None))
         bad_here = []
-        for obs, layer, bad in checks:
+        for obs, layer, bad, term in checks:
             if bad is False:
                 res.oblige(True)
                 continue
@@ -258,7 +266,7 @@ def run_instance(p):
                 continue
             res.oblige(r == 'unsat')
             if r == 'sat':
-                bad_here.append((obs, layer, bad))
+                bad_here.append((obs, layer, bad, term))
         mm = mpslib.grid_model(ex, sy, [])
         alphas = mpslib.values_of(mm, sy)
         if not bad_here:
@@ -266,19 +274,19 @@ def run_instance(p):
                 got, tot_c, shown_c, per_c, summ_c = concrete_case({'spec': spec, 'wseed': wseed, 'alphas': jsonable(alphas), 'train_hard': p.get('train_hard', False), 'hist': hist})
                 if n <= 2:
                     res.sample({'program': mpslib.prog_id(spec), 'alphas': alphas, 'summary': summ, 'cost': got, 'exact': tot_c})
-                if all(abs(got[k] - tot_c[k]) <= 1e-4 * max(1, tot_c[k]) for k in got) and summ_c == summ:
+                if all(abs(g - tot_c[k]) <= 1e-4 * max(1, tot_c[k]) for k in got for g in got[k]) and summ_c == summ:
                     res.validated += 1
                 else:
                     res.errors.append(f'engine consistent but plain torch: cost {got} exact {tot_c} summary {summ_c} vs {summ}')
             continue
-        for obs, layer, bad in bad_here:
+        for obs, layer, bad, term in bad_here:
             from plinio.methods.mps.nn import MPSConv2d, MPSConv1d
             lt = type(m.seed.get_submodule(layer)).__name__ if layer else 'model'
             zero = 0 in spec['w'] and spec['wtype'] == 'channel'
             direction = ''
             unrec = ''
             if obs in tot:
-                cv = st.model_value(mm, costs[obs]) if st.is_sym(costs[obs]) else costs[obs]
+                cv = st.model_value(mm, term) if st.is_sym(term) else term
                 direction = '|cost<exact' if cv < tot[obs] else '|cost>exact'
                 if zero and cv < tot[obs]:
                     # the recorded finding (per-channel search with 0 bit) in executable form: every layer is charged its exact cost times
@@ -295,7 +303,7 @@ def run_instance(p):
             if any(v['key'] == key for v in res.violations):
                 continue
             rec = {'spec': spec, 'wseed': wseed, 'alphas': alphas, 'observable': obs, 'layer': layer, 'key': key, 'summary': summ, 'train_hard': p.get('train_hard', False), 'hist': hist,
-                   'what': f'{mpslib.prog_id(spec)}: {obs} {layer or ""}: cost/shown value {costs.get(obs) if obs in costs else shown[layer][obs.split("_")[1]]} but exact {tot.get(obs) if obs in tot else per[layer]} at summary {summ}'[:600]}
+                   'what': f'{mpslib.prog_id(spec)}: {obs} {layer or ""}: cost/shown value {term if obs in costs else shown[layer][obs.split("_")[1]]} but exact {tot.get(obs) if obs in tot else per[layer]} at summary {summ}'[:600]}
             if selftest:
                 res.violations.append(jsonable(rec))
                 continue
